@@ -208,9 +208,15 @@ CLAIMED = {
         'InstanceConfig.quantified_resources (loop invariant with ghost index maps): arguments passed unchanged, one fraction for all resources, output = exactly the non-None quantities in order; '
         'the fraction, obtained by executing the real body on cpu = a, b, a+b and cores*1000: F(cores*1000) = 1024 for any core count, F >= 0, F(a)+F(b) <= F(a+b); packing induction step and final comparison machine-checked over uninterpreted q, F satisfying exactly those obligations. '
         'Serialization: X.to_dict -> <cloud>_resource_from_dict -> X.from_dict -> X.__init__ executed symbolically per class: same class, same fields, identical billed quantities; '
-        '{GCP,Azure}SlimInstanceConfig.from_dict(to_dict()) preserves machine type (hence cores/memory), job_private and the element-wise reloaded resources.',
+        '{GCP,Azure}SlimInstanceConfig.from_dict(to_dict()) preserves machine type (hence cores/memory), job_private and the element-wise reloaded resources. '
+        'Wave 4: {gcp,azure}_cores_mcpu_to_memory_bytes (real bodies, any positive per-core table value and each real one): exactly floor(mcpu * per-core bytes / 1000), super-additive, cores * per-core for the whole worker; '
+        'PoolConfig.convert_requests_to_resources: the memory returned is that share of the cores returned, cores fit the worker; '
+        'worker.py Job.__init__ (fragment): billed = quantified_resources(spec cores, spec memory, external storage the worker attaches: 0 on job-private instances, the request on pool workers), fields fixed after construction, disks created with that size, status reports self.resources; '
+        'the drivers\' create_vm bill the whole worker with cores * 1000 and extra storage 0 (scans).',
         note=COMMON_NOTE + 'Assumptions: int constructor arguments are non-negative; <cloud>_machine_type_to_parts is a function of the machine type string; the Azure disk-tier lookup is abstracted (returned tier size >= request; every tier has a name entry, established by create()); '
-        'create() (needs ProductVersions) and the float cost multiplication are outside the contract; the Terra config subclass is not covered.',
+        'create() (needs ProductVersions) and the float cost multiplication are outside the contract; the Terra config subclass is not covered. '
+        'Memory helpers: float operations are exact reals, the per-core lookup is an uninterpreted positive function of the worker type (real values enumerated); that parts.memory of every pool machine type equals cores * per-core is checked by native enumeration of the real tables (witness search), not proved; '
+        'the terra driver\'s create_vm and the front end\'s own call of the memory helper are not under contract.',
         technique='symbolic execution of real methods with inlined class hierarchy (pyvc + pyclass) -> z3; loop-invariant contract; induction-step lemma',
         design_ref='7/C13',
     ),
